@@ -1,9 +1,10 @@
 /-
   C02, part hs — heap search / bucket search (deterministic and unambiguous grammars).
 
-  FULL STATEMENT (not proved; it is false on the code as it is, see the findings):
-    for every finite grammar G with positive weights there is a number of `next` steps after which
-    the machine has stopped and its output is a permutation of the language of G.
+  FULL STATEMENT: for every finite grammar G with positive weights there is a number of `next`
+    steps after which the machine has stopped and its output is a permutation of the language of G.
+    PROVED for heap search (threshold 0, no filter) on acyclic context-free grammars: C02_HS_full.
+    False on state-threading TTCFGs and on recursive grammars (findings below).
 
   Proved here, for all inputs (heap search and bucket search on deterministic grammars, model
   PS/Model/Enum/HeapSearch.lean; proofs by rule induction on the big-step relation `HS.Big` of
@@ -27,9 +28,12 @@
     * COMPLETENESS WHEN THE GENERATOR STOPS (item 6, partial correctness), acyclic context-free
       grammars, heap search with threshold 0 and no filter: C02_HS_complete, C02_HS_exactly_once
       (output duplicate-free and equal to the language), C02_HS_exhausted_complete;
-    * TERMINATION of the generator loop given that the prologue returns: C02_HS_stops_partial,
-      C02_HS_total_partial;
-  NOT proved: termination of the prologue, completeness for bucket search / thresholds,
+    * TERMINATION: the prologue returns with enough fuel (C02_HS_prologue_total), the generator loop
+      stops (C02_HS_stops_partial, C02_HS_total_partial), hence the FULL STATEMENT for heap search on
+      acyclic context-free grammars: C02_HS_full — for every fuel ≥ HS.enoughFuel there is a number of
+      `next` steps after which the generator has stopped and its output is a permutation of the
+      language;
+  NOT proved: completeness / termination for bucket search and for a positive threshold,
   no-duplicates with a filter, and everything about the unambiguous-grammar machine (UHeapSearch); they are checked on
   every generated case against the independent language oracle and by exact correspondence of the
   model with the implementation.
@@ -43,6 +47,7 @@ import PS.Proofs.Enum.HSPrio
 import PS.Proofs.Enum.HSNodupRun
 import PS.Proofs.Enum.HSCompleteCheck
 import PS.Proofs.Enum.HSStops
+import PS.Proofs.Enum.HSPrologueTotal
 namespace PS.C02HS
 open PS PS.G
 
@@ -299,6 +304,32 @@ theorem C02_HS_total_partial (E : Env S Unit Rat) (rank : NT S Unit → Nat) (C 
   obtain ⟨k, g', out, h⟩ := take_stops E rank C fuel hfuel hpro
   exact ⟨k, g', out, h, C02_HS_exactly_once E rank C fuel k g' out h⟩
 
+/-- **the prologue of `generator()` returns** with fuel `HS.enoughFuel` =
+    (1 + max rank) * (max arity + max row length + 5) -/
+theorem C02_HS_prologue_total (E : Env S Unit Rat) (rank : NT S Unit → Nat) (C : CompHyp E rank)
+    (hstart : E.G.start ∈ AList.keys E.G.rules) (fuel : Nat) (hfuel : enoughFuel E.G rank ≤ fuel) :
+    ∃ s0, prologue E fuel (St.empty E.G) = some s0 := prologue_total E rank C hstart fuel hfuel
+
+/-- **C02 FOR HEAP SEARCH ON ACYCLIC CONTEXT-FREE GRAMMARS (full statement)**: for every fuel at least
+    `HS.enoughFuel` there is a number `k` of `next` steps after which the generator has stopped, and its
+    output is a permutation of the language of the grammar (`lang`: the duplicate-free list of the
+    members, `C04_lang`): every program exactly once.
+    Hypotheses `HS.CompHyp` (decidable on a literal grammar: `HS.compHyp_of_checks`) and "the start symbol
+    has a row".  Heap search = `HeapSearch` with threshold 0 and no filter. -/
+theorem C02_HS_full (E : Env S Unit Rat) (rank : NT S Unit → Nat) (C : CompHyp E rank)
+    (hstart : E.G.start ∈ AList.keys E.G.rules) (fuel : Nat) (hfuel : enoughFuel E.G rank ≤ fuel) :
+    ∃ k g' out, take E fuel k (Gen.new E.G) [] = some (g', out, true) ∧
+      out.Perm (lang E.G (rank E.G.start + 1) E.G.start) := by
+  obtain ⟨k, g', out, h⟩ := take_total E rank C hstart fuel hfuel
+  refine ⟨k, g', out, h, ?_⟩
+  obtain ⟨hnd, hmem⟩ := C02_HS_exactly_once E rank C fuel k g' out h
+  apply (List.perm_ext_iff_of_nodup hnd (lang_nodup E.G C.init.rows _ _)).mpr
+  intro p
+  rw [hmem p, contains_eq_gen]
+  constructor
+  · intro hg; exact mem_members C p hg
+  · intro hm; exact gen_of_mem_lang E.G C.init.rows _ p _ hm
+
 def cRank (nt : NT Nat Unit) : Nat := 1 - nt.2.1
 
 theorem cE_hyp : CompHyp cE cRank :=
@@ -308,6 +339,11 @@ theorem cE_hyp : CompHyp cE cRank :=
 example : ∃ k g' out, take cE 50 k (Gen.new cG) [] = some (g', out, true) ∧
     out.Nodup ∧ ∀ p, p ∈ out ↔ contains cG p = true :=
   C02_HS_total_partial cE cRank cE_hyp 50 (by decide) (by decide +kernel)
+
+/-- the full statement on the example: enough fuel is 2 * (2 + 2 + 5) = 18 -/
+example : ∃ k g' out, take cE 18 k (Gen.new cG) [] = some (g', out, true) ∧
+    out.Perm (lang cG 2 cG.start) :=
+  C02_HS_full cE cRank cE_hyp (by decide) 18 (by decide)
 
 /-- on the example grammar the generator stops after its 5 programs, which are exactly the language -/
 example : ∀ g' out, take cE 50 10 (Gen.new cG) [] = some (g', out, true) →
